@@ -706,7 +706,7 @@ FAMILIES["slowop"] = fam_slowop
 def fam_conform(tier, seed):
     """random behaviours of the model (TLC -simulate) replayed step by step on the real code (tools/simgen.py)."""
     import simgen
-    return simgen.generate(24 if tier == "quick" else 300, seed)
+    return simgen.generate(40 if tier == "quick" else 400, seed)
 
 
 FAMILIES["conform"] = fam_conform
